@@ -953,6 +953,9 @@ impl<T: Transport, Env: UtpEnvironment> VirtualSocket<T, Env> {
             error: error.map(|e| format!("{e:#}")),
         });
 
+        // Everything we ACKed must reach the reader, even if it was too slow to make space for it.
+        self.user_rx.flush_on_close();
+
         if let Some(e) = error {
             self.user_rx.enqueue_error(format!("{e:#}"));
         }
